@@ -90,14 +90,18 @@ def modOps (s : ModSt) (ln : Nat) (t : List String) : Option (ModSt × List Stri
     -- extended-Lagrangian variables (their own little machines, same clock)
     let (exts', rng', eext) := s.exts.foldl (fun (acc : List ExtObj × UInt64 × Float) (e : ExtObj) =>
         let (es, rng, en) := acc
+        -- a variable with time-step factor n sleeps unless the absolute step is a multiple of n (`calc_colvars`);
+        -- its biases share the factor and hand over n times their force (`communicate_forces`)
+        if e.p.tsf > 1 && m'.clock.it % e.p.tsf != 0 then (es ++ [e], rng, en) else
+        let nF : Float := Float.ofInt e.p.tsf
         let x := inp.z e.atom
         let s1 := extPrepare e.p m'.clock true e.s x
         let w := e.p.width
-        let fb := (-0.5 * e.kb / (w * w) * dist2SGrad e.p.per s1.xExt e.cb) * 1.0
+        let fb := (-0.5 * e.kb / (w * w) * dist2SGrad e.p.per s1.xExt e.cb) * nF
         let eb := 0.5 * e.kb / (w * w) * dist2S e.p.per s1.xExt e.cb
         -- walls act on the actual value (bypass), upper wall only, relative constant 1
         let dW := let g := dist2SGrad none x e.uw; if e.kw == 0.0 then 0.0 else (if g > 0.0 then 0.5 * g else 0.0)
-        let fw := (-e.kw * 1.0 / (w * w) * dW) * 1.0
+        let fw := (-e.kw * 1.0 / (w * w) * dW) * nF
         let ew := 0.5 * e.kw * 1.0 / (w * w) * dW * dW
         let (rng1, rnd) := if e.p.langevin then randGaussian rng else (rng, 0.0)
         let s2 := extEnd m'.clock (extIntegrate e.p s1 x fb fw rnd) x
